@@ -134,6 +134,7 @@ func (d *c18TCPDriver) apply(e c18Ev) ([]c18Obs, error) {
 	d.nc.mu.Unlock()
 	switch e.kind {
 	case 'R', 'P':
+		t0 := time.Now()
 		if e.kind == 'P' && e.g >= 1 && e.g <= len(d.tokens) {
 			tok := d.tokens[e.g-1]
 			f := append([]byte{byte(len(tok)), 0xE3}, tok...)
@@ -145,7 +146,7 @@ func (d *c18TCPDriver) apply(e c18Ev) ([]c18Obs, error) {
 		if err := d.peerPing(); err != nil {
 			return nil, err
 		}
-		d.clk = c18Clock{e.t, d.real.LastActivity()}
+		d.clk = d.clk.rebase(e.t, d.real.LastActivity(), t0)
 	case 'T':
 		d.cc.CheckExpirations(d.clk.at(e.t))
 	default:
